@@ -124,6 +124,12 @@ def oracle(scn, res):
                 if not _fnmatch.fnmatch(p[2], t["sub"]):
                     bad.append(("C14:foreign-channel-delivered", "subscription %r received %s" % (t["sub"], p)))
                     break
+    # a message sits in (and is delivered from) the queue of the channel it was published to
+    for c, items in res.get("left", []):
+        wrong = [p for p in items if isinstance(p, list) and len(p) >= 3 and p[2] != c]
+        if wrong:
+            bad.append(("C14:misrouted-message", "queue of channel %r holds message(s) published on another channel: %s" % (c, wrong[:3])))
+            break
     seqs = [d + list(res["drained"]) for d in res["delivered"] if d] + [list(res["drained"])]
     for s in seqs:
         last = {}
@@ -242,6 +248,31 @@ def sequential_job(job):
                 break
             last[p[2]] = p[1]
 
+    # pattern routing: a subscription yields exactly the messages whose channel matches its pattern in the sense of
+    # fnmatch (the documented "Unix shell-style patterns": *, ?, [seq], [!seq]); the others stay queued
+    import fnmatch as _fn
+    chans = ["jobs.1.cfg", "jobs.2.cfg", "jobs.3.cfg", "jobs.1.status", "jobs.12.cfg", "a", "ab", "a.b", "A", "x[1]", "data.s1", "data.c2"]
+    pats = ["jobs.[12].cfg", "jobs.[12].*", "jobs.[!1].cfg", "jobs.?.cfg", "jobs.??.cfg", "*.[sc]*", "[a-b]*", "a?", "?", "jobs.*.cfg", "jobs.1.cfg",
+            "x[[]1]", "*", "data.[!s]?", "[!j]*", "jobs.[0-9].status", "nomatch", "*.cfg", "j*[g]"]
+    for pat in pats:
+        tr = mod.InMemorySemantivaTransport()
+        tr.connect()
+        pubs = []
+        for k in range(2):
+            for c in chans:
+                tr.publish(c, [0, k, c], {})
+                pubs.append([0, k, c])
+        got = [m.data for m in tr.subscribe(pat)]
+        want = [p for p in pubs if _fn.fnmatch(p[2], pat)]
+        if sorted(map(tuple, got)) != sorted(map(tuple, want)):
+            missing = [p for p in want if p not in got]
+            extra = [p for p in got if p not in want]
+            bad.append(("C14:pattern-routing:%s" % ("matching-message-not-delivered" if missing else "foreign-channel-delivered"),
+                        "subscribe(%r) over channels %s: %d of %d matching messages delivered; not delivered %s; foreign %s"
+                        % (pat, chans, len(want) - len(missing), len(want), missing[:3], extra[:3])))
+        rest = [m.data for m in tr.subscribe("*")]
+        if sorted(map(tuple, got + rest)) != sorted(map(tuple, pubs)):
+            bad.append(("C14:lost-message:sequential", "subscribe(%r) then drain: %d of %d messages seen" % (pat, len(got) + len(rest), len(pubs))))
     run("early close then republish", [("pub", "c", 3), ("take", "c", 1), ("pub", "c", 1), ("drain", "c")])
     run("early close, wildcard", [("pub", "a.x", 2), ("pub", "a.y", 2), ("take", "a.*", 1), ("pub", "a.x", 1), ("drain", "*")])
     run("two early closes", [("pub", "c", 4), ("take", "c", 1), ("take", "c", 1), ("pub", "c", 2), ("drain", "c")])
